@@ -47,6 +47,17 @@ theorem takeReg_same {m m' : Mem} {i : Nat} (h : takeReg m = .ok (m', i)) : Same
       cases h
       exact activate_same h1
 
+theorem takeAt_same {m m' : Mem} {rg : Option Nat} {i : Nat} (h : takeAt m rg = .ok (m', i)) : SameBut m m' := by
+  cases rg with
+  | none => exact takeReg_same h
+  | some j =>
+    simp only [takeAt] at h
+    split at h
+    · cases h
+    · rename_i m1 h1
+      cases h
+      exact activate_same h1
+
 theorem accessCmds_same : ∀ (f : Fut) (m : Mem) (st : Bool) (r : Reg) (m' : Mem) (cs : List PCmd),
     accessCmds m st r f = .ok (m', cs) → SameBut m m'
   | .lit a i, m, st, r, m', cs, h => by
@@ -247,8 +258,8 @@ def BodyOK : Host → Prop
   | .addF _ _ _ => True
   | .addR _ _ _ => True
   | .ifc _ _ _ _ body => BodyOK body
-  | .loop _ _ _ body => BodyOK body
-  | .loopBody _ _ _ body => BodyOK body
+  | .loop _ _ _ _ body => BodyOK body
+  | .loopBody _ _ _ _ body => BodyOK body
   | .foreach _ _ body => BodyOK body
   | .loopUntil _ body _ _ cl => BodyOK body ∧ BodyOK cl
   | .tryUntil _ body => BodyOK body
@@ -262,8 +273,8 @@ theorem BodyOK.completed : ∀ {op : Host}, BodyOK op → Completed op
   | .addF _ _ _, _ => trivial
   | .addR _ _ _, _ => trivial
   | .ifc _ _ _ _ body, h => BodyOK.completed (op := body) h
-  | .loop _ _ _ body, h => BodyOK.completed (op := body) h
-  | .loopBody _ _ _ body, h => BodyOK.completed (op := body) h
+  | .loop _ _ _ _ body, h => BodyOK.completed (op := body) h
+  | .loopBody _ _ _ _ body, h => BodyOK.completed (op := body) h
   | .foreach _ _ body, h => BodyOK.completed (op := body) h
   | .loopUntil _ body _ _ cl, h => ⟨BodyOK.completed h.1, BodyOK.completed h.2⟩
   | .tryUntil _ body, h => BodyOK.completed (op := body) h
@@ -364,13 +375,13 @@ theorem buildCondition_nil {m m' : Mem} {c : Cond} {a b : Val} {body cs : List P
 /-- shared shape of `loop`, `loopBody`, `foreach` -/
 theorem loopShape_stat {m m1 m2 m4 : Mem} {i : Nat} {s e d : Int} {cs : List PCmd} {b : Bool}
     {body op : Host}
-    (h1 : takeReg m = .ok (m1, i)) (ih : Stat (bindHandle m1 (R i) b) m2 body cs)
+    {rg : Option Nat} (h1 : takeAt m rg = .ok (m1, i)) (ih : Stat (bindHandle m1 (R i) b) m2 body cs)
     (h4 : release (buildLoop m2 s e d (R i) cs).1 i = .ok m4)
     (hh : hCount op = 1 + hCount body) (ha : aCount op = aCount body)
     (hd : ∀ n, declsOf n op = declsOf n body) (he : emits op = emits body)
     (hb : BodyOK op → BodyOK body) :
     Stat m m4 op (buildLoop m2 s e d (R i) cs).2 := by
-  have s1 := takeReg_same h1
+  have s1 := takeAt_same h1
   have sl := buildLoop_sameL m2 s e d (R i) cs
   have s4 := release_same h4
   obtain ⟨t, ht, htl⟩ := ih.handles
@@ -490,7 +501,7 @@ theorem emit_stat : ∀ (op : Host) (m m' : Mem) (cs : List PCmd),
       · intro hb
         have := sb.body hb
         exact ⟨sl.meas.trans this.1, sl.rret.trans this.2⟩
-  | loop s e d body ih =>
+  | loop rg s e d body ih =>
     intro m m' cs h
     simp only [emit] at h
     split at h
@@ -504,7 +515,7 @@ theorem emit_stat : ∀ (op : Host) (m m' : Mem) (cs : List PCmd),
         · rename_i m4 h4
           cases h
           exact loopShape_stat h1 (ih _ _ _ h2) h4 rfl rfl (fun _ => rfl) rfl id
-  | loopBody s e d body ih =>
+  | loopBody rg s e d body ih =>
     intro m m' cs h
     simp only [emit] at h
     split at h
@@ -533,7 +544,7 @@ theorem emit_stat : ∀ (op : Host) (m m' : Mem) (cs : List PCmd),
           · cases h
           · rename_i m4 h4
             cases h
-            exact loopShape_stat h1 (ih _ _ _ h2) h4 rfl rfl (fun _ => rfl) rfl id
+            exact loopShape_stat (rg := none) h1 (ih _ _ _ h2) h4 rfl rfl (fun _ => rfl) rfl id
   | loopUntil n body ef ev cl ihb ihc =>
     intro m m' cs h
     simp only [emit] at h
